@@ -489,7 +489,7 @@ public:
     std::vector<int>& ent = w.entries[l];
     long kind = o.d % 3;     // 0 setParametersValues 1 matchParametersValues 2 setAllParametersValues
     bpp::ParameterList src;
-    std::vector<int> tgt; std::vector<double> vals;
+    std::vector<int> tgt; std::vector<double> vals; std::vector<std::string> srcNames; size_t dropIdx = static_cast<size_t>(-1);
     size_t m = ent.size();
     long badPos = o.c % static_cast<long>(m + 2) - 1;      // -1: none ; m: none as well (keeps "none" frequent)
     for (size_t i = 0; i < m; ++i) {
@@ -500,12 +500,20 @@ public:
       if (static_cast<long>(i) == badPos && mi && !mi->empty()) { x = alphabetValue(mi, (i & 1) ? 1 : 7, 0); if (mi->accepts(x)) x = alphabetValue(mi, (i & 1) ? 7 : 1, 0); }
       else if (mi) { x = alphabetValue(mi, 3 + static_cast<long>((i + static_cast<size_t>(o.x)) % 3), 0); if (!mi->accepts(x)) x = c.v; }
       else x = c.v + static_cast<double>(i % 2) * o.y;
-      src.addParameter(bpp::Parameter(c.name, x));
+      srcNames.push_back(c.name);
       tgt.push_back(ent[i]); vals.push_back(x);
     }
-    if ((o.b >> 12) & 1) src.addParameter(bpp::Parameter("foreign", 1.0));   // a name the target does not have
-    bool missing = false;
-    if (kind == 2 && ((o.b >> 13) & 1) && src.size() > 0) { size_t drop = static_cast<size_t>(o.x) % src.size(); if (src[drop].getName() != "foreign") { src.deleteParameter(drop); missing = true; size_t t = drop; tgt.erase(tgt.begin() + static_cast<long>(t)); vals.erase(vals.begin() + static_cast<long>(t)); } }
+    {
+      // a name the target does not have, at a plan-chosen position of the source (before or after the offending entry)
+      if (kind == 2 && ((o.b >> 13) & 1) && !srcNames.empty()) dropIdx = static_cast<size_t>(o.x) % srcNames.size();   // setAll with a target name missing from the source
+      size_t fpos = ((o.b >> 12) & 1) ? static_cast<size_t>(o.b >> 14) % (srcNames.size() + 1) : srcNames.size() + 1;
+      for (size_t i = 0; i <= srcNames.size(); ++i) {
+        if (i == fpos) { src.addParameter(bpp::Parameter("foreign", 1.0)); if (badPos >= 0 && i < srcNames.size()) ctx.probe("foreign-name-before-later-entries"); }
+        if (i < srcNames.size() && i != dropIdx) src.addParameter(bpp::Parameter(srcNames[i], vals[i]));
+      }
+    }
+    bool missing = dropIdx < srcNames.size();
+    if (missing) { tgt.erase(tgt.begin() + static_cast<long>(dropIdx)); vals.erase(vals.begin() + static_cast<long>(dropIdx)); }
     bool anyReject = false;
     for (size_t i = 0; i < tgt.size(); ++i) { Cell& c = w.cells[static_cast<size_t>(tgt[i])]; if (c.c >= 0 && !w.pool[static_cast<size_t>(c.c)].m.accepts(vals[i])) anyReject = true; }
     int want = missing ? (anyReject ? 4 : 2) : (anyReject ? 1 : 0);
@@ -598,7 +606,7 @@ public:
     i.rule = "plans: seeded histories over <=10 parameter objects reached directly, through two lists (cloned/shared entries) and an owning object, with a pool of <=8 shared constraint objects; values are drawn from the order-type alphabet of the target's current bounds; non-trivial = >=3 accepted state-changing steps and >=1 rejected update or auto-correction fired; distinct = distinct fingerprint of the executed op-kind/outcome sequence";
     i.simTime = "steps (no clock in this component)";
     i.faultKinds = {"reject@k", "stream-fail", "storage-flip"};
-    i.probeNames = {"construct-zero-excluded", "auto-corrected", "share-became-update", "equal-bounds-constraint", "intersection-equal-bounds", "bulk-rejected-with-other-entries", "library-internal-parameters-audited"};
+    i.probeNames = {"construct-zero-excluded", "auto-corrected", "share-became-update", "equal-bounds-constraint", "intersection-equal-bounds", "bulk-rejected-with-other-entries", "foreign-name-before-later-entries", "library-internal-parameters-audited"};
     i.assumptions = {"constraint objects are never mutated while attached to a parameter (operator&= only on unattached pool entries): external mutation through getConstraint() is not a constraint update in the statement's sense",
                      "equal infinite bounds: isEmpty not asserted",
                      "auto-correcting parameters only carry non-empty constraints at least 1e-9 wide (the property's quantifier)",
@@ -645,7 +653,7 @@ public:
       if (kk == "set" || kk == "lsetv") { o.b = rng.chance(0.8) ? rng.below(14) : 0; if (kk == "lsetv") { o.c = o.b; o.b = rng.below(8); } }
       if (kk == "setc" || kk == "osetc") o.b = rng.below(9);
       if (kk == "prec") o.y = rng.pick(std::vector<double>{0, 0.5, 0.01, -1.0, 2.0});
-      if (kk == "lbulk") { o.b = rng.below(1 << 10) | (rng.chance(0.2) ? 1 << 12 : 0) | (rng.chance(0.15) ? 1 << 13 : 0); o.c = rng.below(12); o.d = rng.below(3); o.x = static_cast<double>(rng.below(3)); o.y = rng.real(-1, 1); }
+      if (kk == "lbulk") { o.b = rng.below(1 << 10) | (rng.chance(0.3) ? 1 << 12 : 0) | (rng.chance(0.15) ? 1 << 13 : 0) | (rng.below(16) << 14); o.c = rng.below(12); o.d = rng.below(3); o.x = static_cast<double>(rng.below(3)); o.y = rng.real(-1, 1); }
       if (kk == "lsetp") { o.b = rng.below(1 << 10) | (rng.chance(0.2) ? 1 << 12 : 0); o.d = rng.below(3); }
       if (kk == "cnew") { o.a = rng.below(9); o.b = rng.below(9); o.c = rng.below(8); o.x = rng.chance(0.2) ? rng.real(-0.5, 0.5) : 0; o.y = rng.chance(0.2) ? rng.real(-0.5, 0.5) : 0; if (rng.chance(0.2)) o.b = (o.a + 8) % 9; /* equal bounds */ }
       if (kk == "cand") { o.a = rng.below(8); o.b = rng.below(8); o.c = rng.below(2); }
